@@ -43,7 +43,7 @@ struct DDMap : Profile {
     std::vector<std::string> required_probes() const override
     {
         return {"dd-blocks>1", "newref-after-wrap", "find-forward", "find-backward", "cache-toggle", "restart", "dup",
-                "delete", "reuse", "special", "dup-onto-existing-refused"};
+                "delete", "reuse", "special", "dup-onto-existing-refused", "dense-references-one-hole"};
     }
 
     Plan generate(Rng &rng, bool thorough, uint64_t) override
@@ -62,9 +62,9 @@ struct DDMap : Profile {
             p.ops.push_back(mkop(c, "open", {c == 0 ? 0 : 1}));
         static const std::vector<int> w     = {/*put*/ 30, /*del*/ 8, /*dup*/ 5, /*reuse*/ 4, /*newref*/ 6, /*tagnewref*/ 6,
                                                /*find*/ 8,  /*exist*/ 6, /*number*/ 5, /*length*/ 5, /*cache*/ 3,
-                                               /*sync*/ 2,  /*restart*/ 3, /*special*/ 3, /*putnew*/ 8, /*read*/ 5};
+                                               /*sync*/ 2,  /*restart*/ 3, /*special*/ 3, /*putnew*/ 8, /*read*/ 5, /*dense*/ 2};
         static const char            *names[] = {"put", "del", "dup", "reuse", "newref", "tagnewref", "find", "exist",
-                                                 "number", "length", "cache", "sync", "restart", "special", "putnew", "read"};
+                                                 "number", "length", "cache", "sync", "restart", "special", "putnew", "read", "dense"};
         int ntags = (int)r.range(1, NTAGS), nrefs = (int)r.range(2, NREFS);
         for (int i = 0; i < nops; i++) {
             int         c = sc.next(r);
@@ -107,6 +107,9 @@ struct DDMap : Profile {
                     p.ops.push_back(mkop(c, n, {}));
                     for (int cc = 0; cc < nclients; cc++)
                         p.ops.push_back(mkop(cc, "open", {1}));
+                    break;
+                case 16: // tag, which block of eight references gets a single hole at its start
+                    p.ops.push_back(mkop(c, n, {t, (int64_t)r.below(3)}));
                     break;
                 case 13:
                     p.ops.push_back(mkop(c, n, {t % 3, rf, r.range(1, 8), r.range(1, 3), 1 + r.sizeish(40), (int64_t)(r.next() >> 16)}));
@@ -352,6 +355,40 @@ struct DDMap : Profile {
                 if (Hputelement(fid, tag, r, d.data(), (int32)len) != (int32)len)
                     ctx.fail("put-refused", "put-refused:new", strf("Hputelement(%u/%u) with a fresh ref failed", tag, r));
                 s.m[key].data() = d;
+            }
+            else if (k == "dense") {
+                // every reference of one tag up to 8k+7 in use except 8k itself: the one free number is the first of its
+                // group of eight, all lower numbers are taken -- Htagnewref has to find exactly that kind of hole
+                uint16 tag = TAGS[modn(o.arg(0), NTAGS)];
+                int    kk  = 1 + modn(o.arg(1), 3), hole = 8 * kk, top = hole + 7;
+                auto   hit = s.m.find(Key(tag, (uint16)hole));
+                if (hit != s.m.end() && hit->second.special)
+                    done = false;
+                else {
+                    uint8_t three[3] = {7, 7, 7};
+                    for (int rr = 1; rr <= top; rr++) {
+                        Key key(tag, (uint16)rr);
+                        if (rr == hole || s.m.count(key))
+                            continue;
+                        three[0] = (uint8_t)rr;
+                        if (Hputelement(fid, tag, (uint16)rr, three, 3) != 3)
+                            ctx.fail("put-refused", "put-refused:dense", strf("Hputelement(%u/%d) failed: %s", tag, rr, herr().c_str()));
+                        Obj &ob = s.m[key];
+                        ob.data().assign(three, three + 3);
+                    }
+                    if (hit != s.m.end()) {
+                        if (Hdeldd(fid, tag, (uint16)hole) == FAIL)
+                            ctx.fail("delete-refused", "delete-refused:dense", strf("Hdeldd(%u/%d) failed", tag, hole));
+                        s.m.erase(Key(tag, (uint16)hole));
+                    }
+                    uint16 got = Htagnewref(fid, tag);
+                    ctx.tr(got);
+                    ctx.st.checks++;
+                    if (got == 0 || s.m.count(Key(tag, got)) || Hexist(fid, tag, got) != FAIL)
+                        ctx.fail("ref-in-use", "ref-in-use:tagnewref-dense",
+                                 strf("references 1..%d of tag %u are in use except %d: Htagnewref returned %u, which is %s", top, tag, hole, got, got ? "in use" : "no reference at all"));
+                    ctx.probe("dense-references-one-hole");
+                }
             }
             else if (k == "del") {
                 Key key(TAGS[modn(o.arg(0), NTAGS)], REFS[modn(o.arg(1), NREFS)]);
